@@ -5,7 +5,7 @@ import random
 from .. import astx
 from ..history import History, ImmutabilityMonitor
 
-N_CASES = {"quick": 12, "thorough": 15000}
+N_CASES = {"quick": 30, "thorough": 15000}
 TIME_BUDGET = {"quick": 60, "thorough": 270}
 META = {
     "rule": "random histories of 20-120 API events over forests (1-3 datasets: typed with class/method callbacks, typed plain, untyped; "
